@@ -5,7 +5,9 @@ import Univers.Driver.Util
 import Univers.Driver.Alpm
 import Univers.Driver.Conan
 import Univers.Driver.Deb
+import Univers.Driver.Dispatch
 import Univers.Driver.Gem
+import Univers.Driver.Generic
 import Univers.Driver.Gentoo
 import Univers.Driver.Nuget
 import Univers.Driver.Openssl
@@ -16,7 +18,7 @@ import Univers.Driver.Vers
 
 namespace Univers.Driver
 
-def handlers : List (List String → Option String) := [alpmCmd, conanCmd, debCmd, gemCmd, gentooCmd, nugetCmd, opensslCmd, pypiCmd, rpmCmd, semverCmd, versCmd]
+def handlers : List (List String → Option String) := [alpmCmd, conanCmd, debCmd, dispatchCmd, gemCmd, genericCmd, gentooCmd, nugetCmd, opensslCmd, pypiCmd, rpmCmd, semverCmd, versCmd]
 
 def answer (line : String) : String :=
   let ws := (line.splitOn " ").filter (· ≠ "")
